@@ -279,6 +279,13 @@ def decl_shard(shard):
 HIGH = [0, 1, 0x7FFFE, 0x7FFFF, 0x80000, 0x80001, 0xFFFFE, 0xFFFFF]
 
 
+def junk_registers(sim):
+    """li must leave c in rd whatever rd held before: every register holds a non-zero pattern when the program starts."""
+    regs = sim.state.register_file.registers
+    for r in range(1, 32):
+        regs[r] = type(regs[r])((0xA5A5A5A5 ^ (r * 0x01010101)) & 0xFFFFFFFF)
+
+
 def li_shard(shard):
     hi, lo_start, lo_end, forms, seed = shard
     p = Partial()
@@ -308,6 +315,7 @@ def li_shard(shard):
         try:
             a = asm.assemble(text)
             sim = a.sim
+            junk_registers(sim)
             n = 0
             while not sim.is_done() and n < 100:
                 sim.step()
@@ -378,6 +386,7 @@ def replay(case):
     if k == "li":
         a = asm.assemble(case["line"] + "\n")
         sim = a.sim
+        junk_registers(sim)
         n = 0
         while not sim.is_done() and n < 10:
             sim.step()
